@@ -71,6 +71,8 @@ impl DbPool {
     }
 
     pub(crate) async fn add_db(&self, owner: &str, db: &str, db_type: DbKind) -> ServerResult<u64> {
+        validate_db_name(db)?;
+
         let db_path = Path::new(&self.config.data_dir).join(owner).join(db);
         let path = db_path.to_str().ok_or(ErrorCode::DbInvalid)?.to_string();
 
@@ -281,6 +283,8 @@ impl DbPool {
         new_owner: &str,
         new_db: &str,
     ) -> ServerResult {
+        validate_db_name(new_db)?;
+
         let target_file = db_file(new_owner, new_db, &self.config);
 
         if std::fs::exists(&target_file)
@@ -411,6 +415,8 @@ impl DbPool {
         new_owner: &str,
         new_db: &str,
     ) -> ServerResult {
+        validate_db_name(new_db)?;
+
         let target_name = db_file(new_owner, new_db, &self.config);
 
         if target_name.exists() {
@@ -638,6 +644,29 @@ impl DbPool {
 
         Ok(())
     }
+}
+
+// A db name becomes file names inside the owner's directory: the main file
+// `<db>`, its write ahead log `.<db>` and `backups/<db>.bak`, `backups/<db>.log`,
+// `audit/<db>.log`. Names that would leave that directory or that would share
+// any of these files with another database are refused.
+fn validate_db_name(db: &str) -> ServerResult {
+    if db.is_empty()
+        || db.starts_with('.')
+        || db.contains(['/', '\\'])
+        || db == "backups"
+        || db == "audit"
+    {
+        return Err(ServerError::new(
+            ErrorCode::DbInvalid.into(),
+            &format!(
+                "{}: '{db}' cannot be used as a db name",
+                ErrorCode::DbInvalid.as_str()
+            ),
+        ));
+    }
+
+    Ok(())
 }
 
 fn db_not_found(owner: &str, db: &str) -> ServerError {
